@@ -879,6 +879,18 @@ def run_batch(ctx, unis, label):
             if not wf:
                 violation("client_wf fails on the recorded table (an answer about another package, a MatchingVersions "
                               "answer that is not a Concrete version, or a requirement key that is not of type Requirement)", inp)
+            # a resolution abandoned at its CPU allowance (("timeout")) is no observation: abandoned resolvers keep
+            # burning the process's CPU time, so one slow resolution can cut the following ones short; such a root is
+            # undecided for the comparisons between runs (a resolver that does not terminate is reported by the
+            # adversarial and totality parts, which see the timeout itself)
+            def timed_out(o):
+                return bool(o) and isinstance(o, list) and (o[0] == b"timeout" or any(isinstance(x, list) and x and x[0] == b"timeout" for x in o))
+            if timed_out(iobs) or timed_out(rec) or timed_out(raw_obs):
+                ctx.count("undecided: a run was abandoned at its CPU allowance")
+                UNDECIDED[0] += 1
+                if UNDECIDED[1] is None:
+                    UNDECIDED[1] = inp
+                continue
             # Go on the table client must reproduce Go on the recording client
             if iobs != rec:
                 ctx.divergence("pypi(table-vs-recorded)", inp.get()["arg"], sx(iobs), sx(rec))
@@ -1039,8 +1051,12 @@ def known_witnesses(ctx):
             ctx.notes.append("known finding %s: witness replayed on the implementation, still fails as recorded" % k["id"])
 
 
+UNDECIDED = [0, None]
+
+
 def run(ctx):
     rng = ctx.rng
+    UNDECIDED[0], UNDECIDED[1] = 0, None
     if ctx.replay:
         replay(ctx)
     known_witnesses(ctx)
@@ -1057,6 +1073,11 @@ def run(ctx):
                 first_cases = cases
             batch = []
     ctx.count("universes", n_uni)
+    roots_seen = ctx.dist.get("corr:roots", 0)
+    if UNDECIDED[0] > max(20, roots_seen // 50):
+        # a few abandoned runs are the price of the CPU allowance; many mean that the resolver no longer returns
+        ctx.violation("the resolver does not return within its CPU allowance on %d of %d roots (C04: resolution returns a value or an error)"
+                      % (UNDECIDED[0], roots_seen), UNDECIDED[1].get() if UNDECIDED[1] is not None else "roots", observed="timeout")
     adversarial(ctx, first_cases, ctx.scale(120, 400))
     g = ctx.dist.get("graphs", 0)
     if g == 0 or ctx.dist.get("graphs_with_rejected_or_backtracked_candidates", 0) < g * 0.05:
